@@ -417,6 +417,14 @@ def run(tier, seed):
     T = gen.catalogue(me)
     reps = 30 if thorough else 6
     n = 0
+    # fixed witness of the recorded finding's input class (every run exercises it, whatever the seed)
+    w_ref, w_est = np.array([7.5, 7.5, 7.5]), np.array([7.5, 8.0])
+    for name, f in (("beat.p_score", me.beat.p_score), ("beat.evaluate", me.beat.evaluate)):
+        oc, msg = outcome(f, w_ref, w_est)
+        n += 1
+        if oc != "ok":
+            rep.violation(name, "all-reference-beats-coincide/raised-" + oc, {"task": "beat", "shape": "witness", "message": msg,
+                                                                              "args": [w_ref.tolist(), w_est.tolist()]})
     for row in rows:
         task = row["task"]
         if row["kind"] == "valid":
